@@ -123,11 +123,17 @@ impl Config {
 				if parents.iter().any(|p| p == name) {
 					return Err(format!("{name}: hook group contains itself").into());
 				}
+				if parents.len() >= crate::MAX_HOOK_GROUP_DEPTH {
+					return Err(format!("{name}: hook groups are nested too deeply").into());
+				}
 				parents.push(name.to_string());
 				let mut ret = vec![];
 				for hook_name in grp.hooks.iter() {
 					let mut h = self.get_hook_rec(hook_name, parents)?;
 					ret.append(&mut h);
+					if ret.len() > crate::MAX_HOOKS_PER_GROUP {
+						return Err(format!("{name}: hook group contains too many hooks").into());
+					}
 				}
 				parents.pop();
 				return Ok(ret);
@@ -741,10 +747,18 @@ fn get_cnf_path(from: &Path, file: &str) -> Result<Vec<PathBuf>, Error> {
 	Ok(g)
 }
 
-fn read_cnf(path: &Path, loaded_files: &mut BTreeSet<PathBuf>) -> Result<Config, Error> {
+fn read_cnf(
+	path: &Path,
+	loaded_files: &mut BTreeSet<PathBuf>,
+	depth: usize,
+) -> Result<Config, Error> {
 	let path = path
 		.canonicalize()
 		.map_err(|e| Error::from(e).prefix(&path.display().to_string()))?;
+	if depth > crate::MAX_INCLUDE_DEPTH {
+		let msg = format!("{}: includes are nested too deeply", path.display());
+		return Err(msg.into());
+	}
 	if loaded_files.contains(&path) {
 		info!("{}: configuration file already loaded", path.display());
 		return Ok(Config::default());
@@ -760,7 +774,7 @@ fn read_cnf(path: &Path, loaded_files: &mut BTreeSet<PathBuf>) -> Result<Config,
 		.map_err(|e| Error::from(e).prefix(&path.display().to_string()))?;
 	for cnf_name in config.include.iter() {
 		for cnf_path in get_cnf_path(&path, cnf_name)? {
-			let mut add_cnf = read_cnf(&cnf_path, loaded_files)?;
+			let mut add_cnf = read_cnf(&cnf_path, loaded_files, depth + 1)?;
 			config.endpoint.append(&mut add_cnf.endpoint);
 			config.rate_limit.append(&mut add_cnf.rate_limit);
 			config.hook.append(&mut add_cnf.hook);
@@ -820,7 +834,7 @@ fn dispatch_global_env_vars(config: &mut Config) {
 pub fn from_file(file_name: &str) -> Result<Config, Error> {
 	let path = PathBuf::from(file_name);
 	let mut loaded_files = BTreeSet::new();
-	let mut config = read_cnf(&path, &mut loaded_files)?;
+	let mut config = read_cnf(&path, &mut loaded_files, 0)?;
 	dispatch_global_env_vars(&mut config);
 	init_directories(&config)?;
 	Ok(config)
